@@ -50,6 +50,8 @@ func init() {
 			"mutex-on-exit-path", "stream-on-exit-path", "go-backward", "go-forward", "return-shadowed-block",
 			"error-handled", "error-unhandled", "exit-on-later-iteration", "exit-through-function", "cleanup-nested>=2",
 			"mutex-checked", "stream-checked", "nontrivial-passed",
+			"cleanup-fails-on-normal-exit", "cleanup-fails-on-return", "cleanup-fails-on-go", "cleanup-fails-on-error",
+			"cleanup-error-handled", "cleanup-error-unhandled", "cleanup-error-through-outer-cleanup",
 		},
 		Bound:         bound,
 		Selftest:      selftest,
@@ -73,7 +75,8 @@ var kinds = []kindInfo{
 	{"block-b", "block", bodyPos},
 	{"block-nil", "block", bodyPos},
 	{"tagbody", "tagbody", bodyPos},
-	{"unwind-protect", "unwind-protect", []string{"p"}},
+	// p: two cleanup markers; pe/pd/pu/pt: the cleanup forms are [marker, ERROR of that class, marker]
+	{"unwind-protect", "unwind-protect", []string{"p", "pe", "pd", "pu", "pt"}},
 	{"let", "let", bodyPos},
 	{"let*", "let*", bodyPos},
 	{"progn", "progn", bodyPos},
@@ -113,6 +116,15 @@ func canonPos(k *kindInfo) string {
 	return "m"
 }
 
+// outerPositions: the positions used where a tier does not take every position:
+// the canonical one, and for unwind-protect also one failing cleanup.
+func outerPositions(k *kindInfo) []string {
+	if k.name == "unwind-protect" {
+		return []string{"p", "pe"}
+	}
+	return []string{canonPos(k)}
+}
+
 type ctx struct {
 	kind *kindInfo
 	pos  string
@@ -128,6 +140,48 @@ var errorExits = []string{"err-error", "err-div", "err-unbound", "err-type"}
 func isLoop(k *kindInfo) bool { return k.name == "dolist" || k.name == "dotimes" || k.name == "do" }
 func isTagbody(k *kindInfo) bool {
 	return k.name == "tagbody" || k.name == "tagbody-sym"
+}
+
+// cleanupErrors maps the position of an unwind-protect to the error exit its cleanup signals.
+var cleanupErrors = map[string]string{"pe": "err-error", "pd": "err-div", "pu": "err-unbound", "pt": "err-type"}
+
+func failingCleanup(c ctx) bool { return c.kind.name == "unwind-protect" && c.pos != "p" }
+
+func isHandler(k *kindInfo) bool { return k.name == "ignore-errors" || k.name == "recover" }
+
+// effectiveTarget: where control finally goes for the purpose of signatures.
+// Without a failing cleanup this is target(p). With one, the first failing
+// cleanup that is reached (the innermost unwind-protect on the exit's way to
+// its target, else the innermost one around the target) signals an error that
+// replaces the exit and travels to the nearest handler above it.
+func effectiveTarget(p *program) (idx int, sig string, cleanupErr bool) {
+	idx, sig = target(p)
+	first := -1
+	for i := len(p.ctxs) - 1; 0 <= i; i-- {
+		if failingCleanup(p.ctxs[i]) && (sig == "normal" || idx < i) {
+			first = i
+			break
+		}
+	}
+	if first < 0 && 0 <= idx {
+		for i := idx - 1; 0 <= i; i-- {
+			if failingCleanup(p.ctxs[i]) {
+				first = i
+				break
+			}
+		}
+	}
+	if first < 0 {
+		return idx, sig, false
+	}
+	h := -1
+	for i := first - 1; 0 <= i; i-- {
+		if isHandler(p.ctxs[i].kind) {
+			h = i
+			break
+		}
+	}
+	return h, sig + "+cleanup-error", true
 }
 
 // boundary returns the index of the innermost defun (lexical boundary), -1 if none.
@@ -161,7 +215,7 @@ func validNesting(ctxs []ctx) bool {
 			return false
 		}
 		par := ctxs[i-1]
-		if len(par.kind.positions) < 3 || (par.pos != "f" && par.pos != "m" && par.pos != "l") {
+		if par.pos != "f" && par.pos != "m" && par.pos != "l" {
 			return false
 		}
 	}
@@ -361,10 +415,10 @@ func enumPrograms(tier string, emit func(*program)) {
 			switch mode {
 			case "inner":
 				if level < depth-1 {
-					positions = []string{canonPos(k)}
+					positions = outerPositions(k)
 				}
 			case "spine":
-				positions = []string{canonPos(k)}
+				positions = outerPositions(k)
 				use := len(c.spineKinds) == 0
 				for _, n := range c.spineKinds {
 					use = use || n == k.name
@@ -407,10 +461,10 @@ func enumPrograms(tier string, emit func(*program)) {
 func bound(tier string) string {
 	c := cfg(tier)
 	s := fmt.Sprintf("%d context kinds (%s); complete to nesting depth %d with the slot at every position of every level and all exit kinds "+
-		"(normal, return-from a/b, return, return-from function, go forward/backward to every visible tagbody, 4 error classes)",
+		"(normal, return-from a/b, return, return-from function, go forward/backward to every visible tagbody, 4 error classes); every unwind-protect with its plain cleanup (two markers) and with a cleanup [marker, error of each of the 4 classes, marker]",
 		len(kinds), kindNames(), c.fullDepth)
 	if c.fullDepth+1 == c.innerDepth {
-		s += fmt.Sprintf("; depth %d with the outer levels at their canonical position (middle / protected form / then-branch), the innermost level at every position, error classes %v; symbol-tag tagbodies only in the complete depths",
+		s += fmt.Sprintf("; depth %d with the outer levels at their canonical position (middle / protected form with plain cleanup and with a cleanup that signals (error ..) / then-branch), the innermost level at every position, error classes %v; symbol-tag tagbodies only in the complete depths",
 			c.innerDepth, c.deepErrs)
 	} else if c.fullDepth < c.innerDepth {
 		s += fmt.Sprintf("; depth %d..%d with the outer levels at their canonical position (middle / protected form / then-branch), the innermost level at every position, error classes %v",
@@ -474,6 +528,47 @@ func tagOf(k *kindInfo, level int, second bool) eval.Node {
 	return eval.Int(n)
 }
 
+// errorForm renders the error of one class; abstractClass is what ref/eval calls it.
+func errorForm(e string) eval.Node {
+	switch e {
+	case "err-error":
+		return eval.L(eval.Sym("error"), eval.Str("boom"))
+	case "err-div":
+		return eval.L(eval.Sym("/"), eval.Int(1), eval.Int(0))
+	case "err-unbound":
+		return eval.L(eval.Sym("list"), eval.Sym("c07-never-bound"))
+	case "err-type":
+		return eval.L(eval.Sym("car"), eval.Int(5))
+	}
+	panic("unknown error exit " + e)
+}
+
+var abstractClass = map[string]string{"err-error": "error", "err-div": "division-by-zero", "err-unbound": "unbound-variable", "err-type": "type-error"}
+
+var (
+	origOnce    sync.Once
+	origClasses map[string]string // abstract class -> the class slip gives the bare error form at top level
+	origProblem string
+)
+
+// originalClass: the "original condition class" of each error form is what
+// slip itself reports when the form is evaluated alone at top level (probed
+// once per process; a pure function of the build under test).
+func originalClass(abstract string) (string, string) {
+	origOnce.Do(func() {
+		origClasses = map[string]string{}
+		for _, e := range errorExits {
+			_, berr := lisp.Eval(eval.Render(errorForm(e)))
+			if berr == nil || berr.Class == "" || berr.GoFault {
+				origProblem = fmt.Sprintf("%s alone gave %v", eval.Render(errorForm(e)), berr)
+				return
+			}
+			origClasses[abstractClass[e]] = berr.Class
+		}
+	})
+	return origClasses[abstract], origProblem
+}
+
 func (b *built) exitNode() eval.Node {
 	p := b.p
 	n := len(p.ctxs)
@@ -488,14 +583,8 @@ func (b *built) exitNode() eval.Node {
 		return eval.L(eval.Sym("return"), b.exitValueForm())
 	case "rf-fn":
 		return eval.L(eval.Sym("return-from"), eval.Sym(b.fnName(fnIndex(p.ctxs))), b.exitValueForm())
-	case "err-error":
-		return eval.L(eval.Sym("error"), eval.Str("boom"))
-	case "err-div":
-		return eval.L(eval.Sym("/"), eval.Int(1), eval.Int(0))
-	case "err-unbound":
-		return eval.L(eval.Sym("list"), eval.Sym("c07-never-bound"))
-	case "err-type":
-		return eval.L(eval.Sym("car"), eval.Int(5))
+	case "err-error", "err-div", "err-unbound", "err-type":
+		return errorForm(p.exit)
 	}
 	t, sig := target(p)
 	k := p.ctxs[t].kind
@@ -578,6 +667,9 @@ func (b *built) build(level int) eval.Node {
 		return form("tagbody", stmts...)
 	case "unwind-protect":
 		slot := b.build(level + 1)
+		if ee, fails := cleanupErrors[c.pos]; fails {
+			return form("unwind-protect", slot, b.mark(level, "cleanup1", false), errorForm(ee), b.mark(level, "cleanup2", false))
+		}
 		return form("unwind-protect", slot, b.mark(level, "cleanup1", false), b.mark(level, "cleanup2", false))
 	case "let":
 		return form("let", append([]eval.Node{eval.L(eval.L(lv("v", level), eval.Int(1)))}, b.body(level)...)...)
@@ -732,7 +824,8 @@ func execProgram(p *program, reduce, resources bool) (res engine.Result) {
 		return
 	}
 	src := eval.RenderAll(b.forms)
-	tgt, exitSig := target(p)
+	otgt, oexitSig := target(p) // the exit's own target: counters and the non-triviality rule
+	tgt, exitSig := otgt, oexitSig
 	n := len(p.ctxs)
 
 	// vacuity counters and the non-triviality rule
@@ -803,15 +896,52 @@ func execProgram(p *program, reduce, resources bool) (res engine.Result) {
 		}
 	}
 
-	// the class slip itself gives the bare error form
-	origClass := ""
-	if exitSig == "error" {
-		_, berr := lisp.Eval(eval.Render(b.exitForm))
-		if berr == nil || berr.Class == "" || berr.GoFault {
-			res.Fail("harness:bare-error-form", fmt.Sprintf("%s alone gave %v", eval.Render(b.exitForm), berr))
-			return
+	// failing cleanup forms: which way out meets the first one, where its error goes
+	var cleanupErr bool
+	tgt, exitSig, cleanupErr = effectiveTarget(p)
+	if cleanupErr {
+		res.Nontrivial = true
+		switch oexitSig {
+		case "normal":
+			res.Hit("cleanup-fails-on-normal-exit")
+		case "return-from", "return", "return-from-fn":
+			res.Hit("cleanup-fails-on-return")
+		case "go-forward", "go-backward":
+			res.Hit("cleanup-fails-on-go")
+		case "error":
+			res.Hit("cleanup-fails-on-error")
 		}
-		origClass = berr.Class
+		if 0 <= tgt {
+			res.Hit("cleanup-error-handled")
+		} else {
+			res.Hit("cleanup-error-unhandled")
+		}
+		inner := -1
+		for i := n - 1; tgt < i && 0 <= i; i-- {
+			if p.ctxs[i].kind.name != "unwind-protect" {
+				continue
+			}
+			if inner < 0 && failingCleanup(p.ctxs[i]) {
+				inner = i
+			} else if 0 <= inner {
+				res.Hit("cleanup-error-through-outer-cleanup")
+				break
+			}
+		}
+	}
+
+	// the classes slip itself gives the bare error forms: the expected class of an unhandled
+	// error, plus (S2) the classes of errors that were in flight when a cleanup form failed
+	var okClasses []string
+	if ex.out.ErrClass != "" {
+		for _, a := range append([]string{ex.out.ErrClass}, ex.out.ErrAlt...) {
+			c, problem := originalClass(a)
+			if problem != "" || c == "" {
+				res.Fail("harness:bare-error-form", problem+" (class "+a+")")
+				return
+			}
+			okClasses = append(okClasses, c)
+		}
 	}
 
 	// environment
@@ -840,7 +970,7 @@ func execProgram(p *program, reduce, resources bool) (res engine.Result) {
 	trace := lisp.Trace()
 
 	o := &observation{val: val, err: err, trace: trace}
-	blamed := judge(&res, b, &ex, o, tgt, exitSig, origClass, src)
+	blamed := judge(&res, b, &ex, o, tgt, exitSig, okClasses, src)
 	if reduce && 0 < len(res.Failures) {
 		// Name the smallest nesting that shows the failure: (a) a "continues" verdict on a form
 		// that merely contains the sub-chain holding the exit is retried without that form and
@@ -936,9 +1066,19 @@ func reduced(p *program, tgt, from int) *program {
 	if 0 <= tgt {
 		rp.ctxs = append(rp.ctxs, ctx{p.ctxs[tgt].kind, canonPos(p.ctxs[tgt].kind)})
 	}
+	root := len(rp.ctxs)
 	rp.ctxs = append(rp.ctxs, p.ctxs[from:]...)
 	if strings.HasPrefix(p.exit, "go-") {
-		rp.exit = "go-0" + p.exit[len(p.exit)-1:]
+		g, _ := target(p) // the tagbody the go is aimed at
+		switch {
+		case g == tgt:
+			g = 0
+		case from <= g:
+			g = g - from + root
+		default:
+			return nil // the tagbody is not part of the shorter program
+		}
+		rp.exit = fmt.Sprintf("go-%d%s", g, p.exit[len(p.exit)-1:])
 	}
 	if len(p.ctxs) <= len(rp.ctxs) || !validNesting(rp.ctxs) {
 		return nil
@@ -1064,7 +1204,7 @@ func coarseSig(p *program) bool { return hasSymTags(p) && symTagDefect() }
 
 // judge compares observation and expectation. It returns the index of the
 // context blamed by a "continues" verdict (-1 otherwise).
-func judge(res *engine.Result, b *built, ex *expectation, o *observation, tgt int, exitSig, origClass, src string) (blamed int) {
+func judge(res *engine.Result, b *built, ex *expectation, o *observation, tgt int, exitSig string, okClasses []string, src string) (blamed int) {
 	blamed = -1
 	p := b.p
 	prefix := fmt.Sprintf("exit=%s target=%s ", exitSig, targetName(p, tgt))
@@ -1089,8 +1229,8 @@ func judge(res *engine.Result, b *built, ex *expectation, o *observation, tgt in
 		expE, obsE := "-", "-"
 		if ex.out.ErrClass != "" {
 			expE = ex.out.ErrClass
-			if origClass != "" {
-				expE = origClass
+			if 0 < len(okClasses) {
+				expE = strings.Join(okClasses, " or ")
 			}
 		}
 		if o.err != nil {
@@ -1121,7 +1261,7 @@ func judge(res *engine.Result, b *built, ex *expectation, o *observation, tgt in
 		if i < len(ex.out.Trace) {
 			want = wantClass(b, ex.out.Trace[i], tgt)
 		}
-		expectedErr := ex.out.ErrClass != "" && o.err != nil && origClass == o.err.Class
+		expectedErr := ex.out.ErrClass != "" && o.err != nil && oneOf(okClasses, o.err.Class)
 		switch {
 		case i < len(o.trace):
 			m, ok := markerInfo(b, o.trace[i])
@@ -1138,6 +1278,9 @@ func judge(res *engine.Result, b *built, ex *expectation, o *observation, tgt in
 					// (or the loop itself) started another iteration instead of passing the exit on
 					switch m.role {
 					case "pre", "head", "cleanup1", "cleanup2":
+						if failingCleanup(p.ctxs[m.owner]) {
+							break // an error is never swallowed by a loop: this cleanup itself ran again
+						}
 						for l := m.owner; tgt < l && 0 <= l; l-- {
 							if isLoop(p.ctxs[l].kind) && (l < m.owner || m.role == "pre") {
 								blamed, at = l, p.ctxs[l].kind.sig+".next-iteration"
@@ -1177,8 +1320,8 @@ func judge(res *engine.Result, b *built, ex *expectation, o *observation, tgt in
 		fail("unexpected-error", "class="+o.err.Class+" after=all-markers want=value", detail("the program signalled an error, a value was expected"))
 		return
 	case ex.out.ErrClass != "" && o.err != nil:
-		if o.err.Class != origClass {
-			fail("condition-class", "want="+origClass+" got="+o.err.Class, detail("the error surfaced with another condition class"))
+		if !oneOf(okClasses, o.err.Class) {
+			fail("condition-class", "want="+strings.Join(okClasses, "|")+" got="+o.err.Class, detail("the error surfaced with another condition class"))
 		}
 		return
 	}
@@ -1190,6 +1333,15 @@ func judge(res *engine.Result, b *built, ex *expectation, o *observation, tgt in
 		fail("value", "want="+valueClass(b, expVal, tgt)+" got="+valueClass(b, got, tgt), detail("wrong value"))
 	}
 	return
+}
+
+func oneOf(l []string, s string) bool {
+	for _, x := range l {
+		if x == s {
+			return true
+		}
+	}
+	return false
 }
 
 func seenBefore(trace []string, key string) bool {
@@ -1256,6 +1408,8 @@ func selftest(tier string) (killed, total int, notes []string) {
 		{"with-open-file keeps the stream open on return-from/go", eval.Mutations{StreamKeptOnExit: true}},
 		{"error class lost when unwinding through unwind-protect", eval.Mutations{ErrorClassLost: true}},
 		{"backward go ends the tagbody", eval.Mutations{GoBackwardIgnored: true}},
+		{"cleanup forms re-run when one of them fails after a normal exit / return-from / go", eval.Mutations{CleanupRerunOnCleanupError: true}},
+		{"cleanup forms after a failing one still run", eval.Mutations{CleanupContinuesAfterError: true}},
 	}
 	total = len(mutants)
 	alive := make([]bool, total)
